@@ -79,6 +79,10 @@ type LSpec struct {
 	// GuardedUser adds a user file guarded by the output constraint that references the
 	// generated identifiers of the first healthy struct-format converter.
 	GuardedUser bool `json:"guarded_user,omitempty"`
+	// LinkedFiles: declaring file (dir/file) → path of the regular file it is a symbolic link
+	// to (a shared source kept outside every package directory). Outputs stay relative to the
+	// declaring file, i.e. to the link.
+	LinkedFiles map[string]string `json:"linked_files,omitempty"`
 
 	guardedDecls [][2]string
 }
@@ -204,6 +208,17 @@ func fieldNames(version int) (string, string, string) {
 
 // Render writes the input files of the spec.
 func (s *LSpec) Render() map[string]string {
+	files := s.render()
+	for link, target := range s.LinkedFiles {
+		if c, ok := files[link]; ok {
+			delete(files, link)
+			files[target] = c
+		}
+	}
+	return files
+}
+
+func (s *LSpec) render() map[string]string {
 	s.guardedDecls = nil
 	byFile := map[string][]*LConv{}
 	var fileOrder []string
@@ -383,6 +398,14 @@ func (s *LSpec) renderConv(b *strings.Builder, c *LConv) {
 // World renders the spec as a world. Patterns list every declaring package.
 func (s *LSpec) World(name string) *World {
 	w := &World{Name: name, Module: DefaultModule, Files: s.Render(), Tags: []string{"layout"}}
+	for link, target := range s.LinkedFiles {
+		if _, ok := w.Files[target]; ok {
+			if w.Symlinks == nil {
+				w.Symlinks = map[string]string{}
+			}
+			w.Symlinks[link] = target
+		}
+	}
 	seen := map[string]bool{}
 	for _, c := range s.Convs {
 		if !seen[c.Dir] {
@@ -654,6 +677,10 @@ func DrawLayout(rng *rand.Rand, nConv int, opts LayoutOpts) *LSpec {
 	if rng.IntN(4) == 0 {
 		s.PlainPkgs = []string{[]string{"plainpkg", "zz/plainpkg", "aa_plain"}[rng.IntN(3)]}
 	}
+	if opts.Symlinks && rng.IntN(5) == 0 {
+		c := s.Convs[rng.IntN(len(s.Convs))]
+		s.LinkedFiles = map[string]string{path.Join(c.Dir, c.File): "_shared/src/" + strings.ReplaceAll(path.Join(c.Dir, c.File), "/", "_")}
+	}
 	return s
 }
 
@@ -664,6 +691,7 @@ type LayoutOpts struct {
 	Guarded     bool
 	UserPkgs    bool
 	GuardedUser bool
+	Symlinks    bool
 }
 
 // Bump changes the type version of every converter (old outputs stop compiling).
@@ -745,6 +773,12 @@ func CoverageSpecs() []*LSpec {
 				}
 				s.Convs = []LConv{c, {Dir: "a", File: "vars.go", Kind: "variables", Name: "Vb", Version: 1}}
 				out = append(out, s)
+				if pk == 0 && us == 0 {
+					// the same layout with both declaring files reached through symbolic links
+					l := s.Clone()
+					l.LinkedFiles = map[string]string{"svc/conv/conv.go": "_shared/src/conv.go", "a/vars.go": "_shared/other/vars_src.go"}
+					out = append(out, l)
+				}
 			}
 		}
 	}
